@@ -34,7 +34,7 @@ struct World {
 	std::vector<Region> regions;
 	std::string error;
 	size_t page = 0x1000, sb = 0, slabsize = 0;
-	unsigned map_calls = 0, unmap_calls = 0;
+	unsigned map_calls = 0, unmap_calls = 0, poison_calls = 0;
 	std::vector<int> constructing;          // per class: threads currently between "found the class empty" and slab attached
 	unsigned concurrent_slab_construction = 0, cross_thread_frees = 0, switches_in_call = 0;
 	struct Live { size_t req, rep; int owner; uint32_t seed; };
@@ -76,7 +76,19 @@ struct PolCore {
 };
 #define SIZES(P, S, B, N) static constexpr size_t pagesize = P, slabsize = S, sb_size = B; static constexpr int num_buckets = N;
 struct PA : PolCore { SIZES(0x1000, 0x4000, 0x4000, 9) uintptr_t map(size_t len, size_t align) { return map_impl(len, align); } void unmap(uintptr_t b, size_t l) { unmap_impl(b, l); } };
-struct PB : PolCore { SIZES(0x1000, 0x8000, 0x8000, 11) uintptr_t map(size_t len) { return map_impl(len, 0); } void unmap(uintptr_t b, size_t l) { unmap_impl(b, l); } };
+// PB also has the poison hooks. They are places where other threads may run, and poison() must never cover bytes of a block that a
+// client owns at that moment (a block that was handed out again before the freeing call got round to poisoning it).
+struct PB : PolCore { SIZES(0x1000, 0x8000, 0x8000, 11) uintptr_t map(size_t len) { return map_impl(len, 0); } void unmap(uintptr_t b, size_t l) { unmap_impl(b, l); }
+	void poison(void *p, size_t n) {
+		dsched::point();
+		dsched::Ignore ig;
+		uintptr_t a = (uintptr_t)p;
+		for(auto &kv : W->live) if(a < kv.first + kv.second.req && kv.first < a + n) { W->err("Policy::poison(%p, %zu) covers bytes of the live block at %#lx (owned by thread %d): it was handed out again before the call that freed it poisoned it", p, n, (unsigned long)kv.first, kv.second.owner); break; }
+		W->poison_calls++;
+	}
+	void unpoison(void *, size_t) { }
+	void unpoison_expand(void *, size_t) { }
+};
 using PoolA = frg::slab_pool<PA, dsched::sched_mutex>;
 using PoolB = frg::slab_pool<PB, dsched::sched_mutex>;
 int g_cfg = 0;
@@ -230,6 +242,7 @@ void run(Ctx &c, int nb) {
 	if(w.concurrent_slab_construction) c.tag("two-threads-constructing-a-slab-of-one-class");
 	if(w.cross_thread_frees) c.tag("cross-thread-free");
 	if(w.reentrant && w.unmap_calls) c.tag("re-entrant-unmap");
+	if(w.poison_calls) c.tag("poison-hooks-under-concurrency");
 	c.tagf("threads-%u", nthreads); c.tagf("template-%u", tmpl);
 	c.tagf("switches-%s", r.switches < 5 ? "0-4" : r.switches < 20 ? "5-19" : "20+");
 	c.nontrivial = w.switches_in_call > 0;
